@@ -30,19 +30,39 @@ type c11State struct {
 	autoOpts               bool
 	methods                []string
 	primeMethod, primePath string
+	redirect               map[string]bool
+	redirSeen              *served
 }
 
 func SetupC11Serve() any {
 	base := corpusSet(sym.Param("set"))
 	opts := sym.Param("opts")
 	st := &c11State{ignore: map[string]bool{}, noMethod: opts&1 != 0, autoOpts: opts&2 != 0}
-	st.p = newProbeRouter(fox.WithNoMethod(st.noMethod), fox.WithAutoOptions(st.autoOpts))
+	st.redirect = map[string]bool{}
+	st.redirSeen = &served{}
+	// a middleware in redirect scope records what the context exposes inside the redirect handler
+	redirMW := func(next fox.HandlerFunc) fox.HandlerFunc {
+		return func(c fox.Context) {
+			*st.redirSeen = served{hit: true, kind: "redirect", pattern: c.Pattern(), params: collectParams(c), scope: c.Scope()}
+			if c.Route() != nil {
+				st.redirSeen.pattern = "route:" + c.Route().Pattern()
+			}
+			next(c)
+		}
+	}
+	st.p = newProbeRouter(fox.WithNoMethod(st.noMethod), fox.WithAutoOptions(st.autoOpts), fox.WithMiddlewareFor(fox.RedirectHandler, redirMW))
 	for i, rt := range base.Routes {
 		m := methodOf3(i)
 		ign := i%3 == 0
+		red := i%3 == 1 && sym.Param("redir") == 1
 		st.set.Routes = append(st.set.Routes, R{m, rt.Pattern})
 		st.ignore[m+" "+rt.Pattern] = ign
-		mustHandle(st.p, m, rt.Pattern, fox.WithIgnoreTrailingSlash(ign))
+		st.redirect[m+" "+rt.Pattern] = red
+		if red {
+			mustHandle(st.p, m, rt.Pattern, fox.WithRedirectTrailingSlash(true))
+		} else {
+			mustHandle(st.p, m, rt.Pattern, fox.WithIgnoreTrailingSlash(ign))
+		}
 	}
 	st.set.Name = base.Name
 	st.ref = newRefRouter(st.set)
@@ -158,7 +178,18 @@ func HarnessC11Serve(st any) {
 		sym.Assert(pg.kind == "route", "priming request served through an ignored trailing slash")
 		sym.Cover("primed with an ignored trailing-slash match")
 	}
+	*s.redirSeen = served{}
 	got, status, allowHdr := s.p.serve(req)
+
+	// a trailing-slash match of a redirecting route on a clean path: the redirect handler runs, and its context
+	// exposes no route, pattern or parameters and reports the redirect scope
+	if how == 0 && res.route != nil && res.tsr && path != "/" && method != "CONNECT" && s.redirect[method+" "+res.route.pattern] && path == refClean(path) {
+		sym.Cover("redirect handler context observed")
+		sym.Assert(!got.hit && (status == 301 || status == 308), "a redirecting route answers the trailing-slash match with a redirect")
+		sym.Assert(s.redirSeen.hit && s.redirSeen.scope == fox.RedirectHandler, "the redirect handler runs in the redirect scope")
+		sym.Assert(s.redirSeen.pattern == "" && len(s.redirSeen.params) == 0, "the redirect handler's context exposes no route, pattern or parameters")
+		return
+	}
 
 	if how == 1 || (how == 2 && path != "/") {
 		sym.Cover("served by a route")
